@@ -1,6 +1,6 @@
 From Coq Require Import List Arith Bool String.
 From Wire Require Import Sets Acyclic Solve Names Front Exec Model Emit Cli CopyAst ModelThms NamesThms Bridge ProcessWF Perm PermModel EmitThms Regroup RegroupModel SolveBound SolveBoundModel.
-From Wire Require Show ShowBound FrontRules.
+From Wire Require Show ShowBound FrontRules InjBody.
 From Wire Require Rename.
 Import ListNotations.
 
@@ -238,6 +238,21 @@ Theorem C13_ifacevalue_accepts : forall it vt implements,
   (exists i, it = FrontRules.GPtr i /\ FrontRules.is_iface i = true /\ vt <> FrontRules.GUntypedNil /\ implements = true).
 Proof. exact FrontRules.ifacevalue_accepts. Qed.
 Print Assumptions C13_ifacevalue_accepts.
+
+(* ------------------------------------------------------------------ C20 / C01 (injector templates) *)
+(* findInjectorBuild takes a function for an injector template exactly when its body is, up to empty statements, one
+   wire.Build call (possibly as the argument of panic) followed by nothing but returns; the "invalid injector"
+   diagnostic is only raised for bodies that do call wire.Build *)
+Theorem C20_injector_template_iff : forall l,
+  InjBody.find_build l = InjBody.FBBuild <->
+  exists a s b, l = a ++ s :: b /\ InjBody.blanks a /\ InjBody.is_build s = true /\ InjBody.clean b.
+Proof. exact InjBody.find_build_iff. Qed.
+Print Assumptions C20_injector_template_iff.
+
+Theorem C20_invalid_injector_calls_build : forall l,
+  InjBody.find_build l = InjBody.FBInvalid -> existsb InjBody.is_build l = true.
+Proof. exact InjBody.invalid_has_build. Qed.
+Print Assumptions C20_invalid_injector_calls_build.
 
 (* ------------------------------------------------------------------ C09 *)
 Theorem C09_results : forall rs c e, func_output rs = FoOk c e <-> legal_results rs c e.
